@@ -114,7 +114,7 @@ fn gen_incase(rng: &mut Lcg) -> InCase {
 }
 
 fn in_process(ctx: &Ctx) {
-    let n = ctx.tier.pick(20_000u64, 400_000u64);
+    let n = ctx.tier.pick(60_000u64, 2_000_000u64);
     let tmp = TmpDir::new("c19");
     std::fs::create_dir_all(tmp.0.join("www")).unwrap();
     let mut content = MARKER.to_vec();
@@ -329,7 +329,7 @@ fn end_to_end(ctx: &Ctx) {
             return;
         }
     };
-    let servers = ctx.tier.pick(48u64, 1200u64);
+    let servers = ctx.tier.pick(144u64, 3000u64);
     let next = std::sync::atomic::AtomicU64::new(0);
     let found: std::sync::Mutex<Vec<(Fail, J)>> = std::sync::Mutex::new(Vec::new());
     crate::engine::shards(12, |sh| {
